@@ -8,3 +8,7 @@ package protocol
 // subset. The contract promises nothing, so callers forget the whole heap at this call.
 //@ func (p *Protocol) SendMessage(msg) (err)
 //@   nobody
+
+//@ pureiface VersionData.NetworkMagic VersionData.DiffusionMode VersionData.PeerSharing VersionData.Query
+// The per-version decoders stored in the version tables only decode their argument.
+//@ purefunc NewVersionDataFromCborFunc
